@@ -1,6 +1,16 @@
 //! C29 — connection handlers know whether their peer is in a mesh (same exploration as C28,
 //! oracle: the real handler's `in_mesh`, observed through `connection_keep_alive()` after the
 //! JoinedMesh/LeftMesh notifications of the step were applied, equals membership in any mesh).
+//!
+//! Reading for peers with more than one connection (settled from the code and the statement):
+//! the behaviour informs exactly one handler per peer, the one of `connections.first()`
+//! (`peer_added_to_mesh` / `peer_removed_from_mesh`), and when a connection closes while others
+//! remain it re-sends `JoinedMesh` to the new first connection (`on_connection_closed`). "It" in
+//! the statement is therefore the handler of the peer's oldest live connection: after every step
+//! that handler must believe `in_mesh` when the peer is in some mesh (this is what keeps a mesh
+//! connection alive), and no live handler of the peer may believe `in_mesh` when the peer is in
+//! no mesh. Handlers of younger connections are allowed to be uninformed while the peer is a
+//! member. Notifications addressed to a closed connection are dropped, as the Swarm does.
 use crate::meshsys::Prop;
 use mc::{Ctx, Meta, Outcome};
 
@@ -8,9 +18,9 @@ pub const META: Meta = Meta {
     level: "model_checking",
     rule: "Same exploration as C28 (histories of connect/disconnect/Subscribe/Unsubscribe/GRAFT/PRUNE RPCs incl. two-topic RPCs, local subscribe/unsubscribe, score, advance, heartbeat over 3 peers x 2 topics). Non-trivial = distinct reached states with a non-empty mesh; guards require steps that add / remove one peer in both topics at once.",
     explanation: "After every step the ToSwarm::NotifyHandler{JoinedMesh|LeftMesh} events drained from the behaviour are applied to the peer's real connection Handler; for every connected peer handler.connection_keep_alive() (= in_mesh) must equal membership of the peer in the union of all topic meshes.",
-    assumptions: &["3 peers / 2 topics / depth-bounded histories (small-scope)", "one connection per peer, notifications for closed connections are dropped as the Swarm does"],
+    assumptions: &["3 peers / 2 topics / depth-bounded histories (small-scope)", "at most two connections per peer (second connection, then either closes); notifications for closed connections are dropped as the Swarm does", "with two connections the judged handler is the one of the oldest live connection (the one the behaviour addresses)"],
 };
 
 pub fn run(ctx: &Ctx) -> Outcome {
-    crate::meshrun::run(ctx, Prop::C29, &["note.joined", "note.left", "multi-add.Heartbeat", "multi-add.SubscribeRpc", "multi-remove.Heartbeat", "add.GraftRpc", "remove.PruneRpc"])
+    crate::meshrun::run(ctx, Prop::C29, &["note.joined", "note.left", "multi-add.Heartbeat", "multi-add.SubscribeRpc", "multi-remove.Heartbeat", "add.GraftRpc", "remove.PruneRpc", "close-oldest-connection-of-mesh-peer", "close-newest-connection-of-mesh-peer"])
 }
